@@ -27,6 +27,10 @@ Coverage of the property text, clause by clause (stream = `kind` of the generate
   serialize_ndarray (float -> int compaction)               arr
   other model classes (not named by the property)           model: QM / CQM / DQM / BinaryPolynomial / Variables through the copy and
                                                             pickle routes each class offers (worker-compared)
+  independence of what came back (round 5)                 every bqm / ss route: the result is relabelled, grown, shrunk, its numbers
+                                                            changed; the original is compared with its snapshot (mutate_*_copy)
+  NumPy / Fraction members inside tuple labels (round 5)    npify: labels kind (any depth), ('k', i) / ('m', i) labels of bqm / ss
+  caller-assembled record, other field order (round 5)      ss: rec_order
 Not reached: bytes_type other than bytes/bytearray (e.g. bson.Binary); sample sets with more than 130 variables;
 to_file/from_file (C13); legacy (< 3.0.0) documents (refused by from_serializable).
 """
@@ -48,6 +52,46 @@ import wlib
 from wlib import cq, clist, cnat, cz, cbool, copt, cpair
 import gen
 from gen import F, enc_label, dec_label, LabelTable, coq_obs, fs
+
+def dec_label(j):
+    """JSON label -> Python label; {"np": dtype, "v": x} is a NumPy scalar, {"fr": "n/d"} a Fraction (both
+    also INSIDE nested tuples), {"t": [...]} a tuple"""
+    if isinstance(j, dict):
+        if "np" in j:
+            return np.dtype(j["np"]).type(j["v"])
+        if "fr" in j:
+            return Fraction(j["fr"])
+        return tuple(dec_label(x) for x in j["t"])
+    if isinstance(j, list):
+        return tuple(dec_label(x) for x in j)
+    return j
+
+
+def npify(rng, j, p=0.5, top=False, only_km=False):
+    """numbers INSIDE tuple labels become NumPy scalars / Fractions of the same value (equal, same hash):
+    serialize_variable has to convert them recursively"""
+    if isinstance(j, dict) and "t" in j:
+        if only_km and not (len(j["t"]) == 2 and j["t"][0] in ('k', 'm') and isinstance(j["t"][1], int)):
+            return j
+        return {"t": [npify(rng, x, p) for x in j["t"]]}
+    if top or isinstance(j, bool) or rng.random() > p:
+        return j
+    if isinstance(j, int) and -2 ** 63 <= j < 2 ** 63:
+        r = rng.random()
+        if r < 0.2 and abs(j) < 2 ** 53:     # a Fraction is serialised as a float
+            return {"fr": f"{j}/1"}
+        return {"np": rng.choice(['int64', 'int64', 'int32', 'int8', 'uint16']) if 0 <= j < 100 else 'int64', "v": j}
+    if isinstance(j, float):
+        return {"np": 'float64', "v": j} if rng.random() < 0.7 else {"fr": str(Fraction(j))}
+    return j
+
+
+def npify_labels(rng, encs, only_km=False):
+    # only_km: SampleSet.from_samples and BQM.to_numpy_vectors(sort_labels=True) sort the labels, and a NumPy scalar compared
+    # with a tuple at the same position of two tuple labels makes that raise ValueError (reported finding np_member_label_sort):
+    # for sample sets and BQMs only the generated ('k', i) / ('m', i) labels get NumPy / Fraction members
+    return [npify(rng, e, top=True, only_km=only_km) for e in encs] if rng.random() < 0.5 else encs
+
 
 BIG = 2 ** 53 + 1     # smallest positive integer a float64 cannot hold
 # |label| < 2^63: Variables raises OverflowError for integer labels outside the ssize_t range (e.g. Variables([2**64+1]))
@@ -114,7 +158,7 @@ def gen_bqm_desc(rng, labels, vartype, kmax, jmax):
                 u, v = (labels[i], labels[j]) if rng.random() < 0.5 else (labels[j], labels[i])
                 quad.append([enc_label(u), enc_label(v), str(b)])
     off = rng.dyadic(kmax, jmax) if rng.random() < 0.7 else Fraction(0)
-    return {"vartype": vartype, "labels": [enc_label(l) for l in labels], "lin": lin, "quad": quad, "off": str(off)}
+    return {"vartype": vartype, "labels": npify_labels(rng, [enc_label(l) for l in labels], only_km=True), "lin": lin, "quad": quad, "off": str(off)}
 
 
 def gen_info(rng, depth=0):
@@ -241,7 +285,7 @@ def gen_case(rng, tier):
         if rng.random() < 0.3 and n:
             labels[0] = {"np": rng.choice(['int64', 'int8', 'float32', 'float64']), "v": rng.choice([3, 11, 2.5, 2 ** 53 + 1, -(2 ** 62 + 1)])}
             return {"kind": "labels", "labels": [labels[0]] + [enc_label(l) for l in labels[1:]], "json": rng.random() < 0.6}
-        return {"kind": "labels", "labels": [enc_label(l) for l in labels], "json": rng.random() < 0.6}
+        return {"kind": "labels", "labels": npify_labels(rng, [enc_label(l) for l in labels]), "json": rng.random() < 0.6}
     if 0.60 <= r < 0.66:
         return gen_model(rng)
     if r < 0.60:
@@ -296,7 +340,7 @@ def gen_case(rng, tier):
     if rng.random() < 0.7:
         for k in rng.sample(['timing', 'arr', 'note', 'nested', 'x y'], rng.randint(1, 3)):
             info[k] = gen_info(rng)
-    return {"kind": "ss", "vartype": vt, "dtype": dtype, "labels": [enc_label(l) for l in labels], "rows": rows,
+    return {"kind": "ss", "vartype": vt, "dtype": dtype, "labels": npify_labels(rng, [enc_label(l) for l in labels], only_km=True), "rows": rows,
             "energy": [str(rng.dyadic(20, 2)) for _ in range(nrows)],
             "nocc": [rng.choice([1, 1, 2, 7, 1000]) for _ in range(nrows)] if rng.random() < 0.6 else None,
             "vectors": vectors, "info": info, "use_bytes": rng.random() < 0.35, "pack": rng.random() < 0.65,
@@ -305,7 +349,10 @@ def gen_case(rng, tier):
             "defer": rng.choice([None, None, None] + DEFER_MODES) if vt in ('SPIN', 'BINARY') or rng.random() < 0.5
             else rng.choice([None] + DEFER_MODES[:4]),
             "defer_main": rng.random() < 0.5, "touch": rng.random() < 0.3,
-            "bytes_type": rng.choice(['bytes', 'bytes', 'bytearray']), "wrap": rng.random() < 0.3}
+            "bytes_type": rng.choice(['bytes', 'bytes', 'bytearray']), "wrap": rng.random() < 0.3,
+            # the record assembled by the caller with another field order (SampleSet(record, variables, info, vartype))
+            "rec_order": rng.choice([None, None, 'energy_first', 'sample_last', 'reversed', 'shuffled']),
+            "rec_perm": rng.random()}
 
 
 # ----------------------------------------------------------------------------
@@ -321,7 +368,7 @@ def same_label(a, b):
     def kind(x):
         if isinstance(x, (bool, np.bool_)):
             return 'bool'
-        if isinstance(x, (int, np.integer, float, np.floating)):
+        if isinstance(x, (int, np.integer, float, np.floating, Fraction)):
             return 'num'
         return type(x).__name__
     return kind(a) == kind(b) and a == b
@@ -335,7 +382,7 @@ def norm_label(l):
         return l
     if isinstance(l, (np.integer,)):
         return int(l)
-    if isinstance(l, (float, np.floating)):
+    if isinstance(l, (float, np.floating, Fraction)):
         return int(l) if float(l).is_integer() else float(l)
     return l
 
@@ -356,7 +403,7 @@ def label_types_ok(o, e, idx=None):
         return True
     if isinstance(o, (int, np.integer)):
         return type(e) is int and e == o
-    if isinstance(o, (float, np.floating)):
+    if isinstance(o, (float, np.floating, Fraction)):
         return (type(e) is float and e == o) or (idx is not None and type(e) is int and e == idx and e == o)
     if isinstance(o, str):
         return type(e) is str and e == o
@@ -398,7 +445,7 @@ def coq_lbl(l, j=False):
         raise AssertionError("boolean label")
     if isinstance(l, (int, np.integer)):
         return f"({L}Int {cz(int(l))})"
-    if isinstance(l, (float, np.floating)):
+    if isinstance(l, (float, np.floating, Fraction)):
         fr = Fraction(float(l))
         return f"({L}Flt {cz(fr.numerator)} {fr.denominator}%positive)"
     if isinstance(l, str):
@@ -481,7 +528,7 @@ def diff_samplesets(a, b, what):
         return f"{what}: variables {la!r} -> {lb!r}"
     if a.vartype is not b.vartype:
         return f"{what}: vartype {a.vartype} -> {b.vartype}"
-    if a.record.dtype.names != b.record.dtype.names:
+    if sorted(a.record.dtype.names) != sorted(b.record.dtype.names):    # the order of the fields is the caller's
         return f"{what}: data vectors {a.record.dtype.names} -> {b.record.dtype.names}"
     if len(a) != len(b):
         return f"{what}: rows {len(a)} -> {len(b)}"
@@ -559,6 +606,63 @@ def vt_name(vt):
 
 
 # ----------------------------------------------------------------------------
+# independence of what came back: change the copy, the original keeps its earlier snapshot
+
+FRESH = [('__fresh__', 0), ('__fresh__', 1)]
+
+
+def bqm_snapshot(m):
+    return ([repr(norm_label(v)) for v in m.variables], m.vartype.name,
+            [(repr(norm_label(v)), float(m.get_linear(v))) for v in m.variables],
+            sorted((sorted([repr(norm_label(u)), repr(norm_label(v))]), float(b)) for u, v, b in m.iter_quadratic()),
+            float(m.offset))
+
+
+def mutate_bqm_copy(bqm, new, route):
+    """relabel / add / remove a variable and move the offset on what came back; None or why the ORIGINAL changed"""
+    before = bqm_snapshot(bqm)
+    try:
+        if new.num_variables:
+            new.relabel_variables({next(iter(new.variables)): FRESH[0]}, inplace=True)
+        new.add_variable(FRESH[1], 1.5)
+        if new.num_variables > 1:
+            new.add_quadratic(FRESH[1], next(iter(new.variables)), -2.0)
+        new.offset = new.offset + 1
+        if new.num_variables > 2:
+            new.remove_variable(list(new.variables)[1])
+    except Exception as e:
+        return f"the BQM that came back ({route}) cannot be modified: {type(e).__name__}: {e}"
+    # labels first: an original whose label table moved under it must not be asked for its biases
+    labels_after = [repr(norm_label(v)) for v in bqm.variables]
+    if labels_after != before[0] or bqm.num_variables != len(before[0]):
+        return (f"changing the BQM that came back ({route}) changed the labels of the original: "
+                f"{before[0]!r} -> {labels_after!r} (num_variables {bqm.num_variables})")
+    after = bqm_snapshot(bqm)
+    if after != before:
+        k = next(i for i in range(len(before)) if before[i] != after[i])
+        return f"changing the BQM that came back ({route}) changed the original: {before[k]!r} -> {after[k]!r}"
+    return None
+
+
+def mutate_ss_copy(ref, orig, other, route):
+    before_vars = list(orig.variables)
+    try:
+        if len(other.variables):
+            other.relabel_variables({other.variables[0]: FRESH[0]})
+        other.info['__changed__'] = 1
+        try:
+            if len(other):
+                other.record.energy[0] = other.record.energy[0] + 1
+                if len(other.variables):
+                    other.record.sample[0, 0] = other.record.sample[0, 0] + 1
+        except ValueError:
+            pass       # read-only buffers (frombuffer of a bytes payload)
+    except Exception as e:
+        return f"the sample set that came back ({route}) cannot be modified: {type(e).__name__}: {e}"
+    return diff_samplesets(ref, orig, f"the original after the {route} result was modified")
+
+
+# ----------------------------------------------------------------------------
 # BQM
 
 def build_bqm(c):
@@ -632,7 +736,10 @@ def run_bqm(c):
         return {"py_fail": f"BQM round trip ({route}) returned a {type(new).__name__}", "features": feats}
     # labels: numbered in the order of the serialised label list when there is one
     if doc is not None:
-        order = list(iter_deserialize_variables(json.loads(json.dumps(doc["variable_labels"]))))
+        try:
+            order = list(iter_deserialize_variables(json.loads(json.dumps(doc["variable_labels"]))))
+        except TypeError as e:
+            return {"py_fail": f"BQM.to_serializable: the variable_labels of the document are not JSON-serialisable: {e}", "features": feats}
         ok = len(order) == len(bqm.variables) and all(any(same_label(x, y) for y in bqm.variables) for x in order)
         if not ok:
             return {"py_fail": f"serialised labels {order!r} are not the variables {list(bqm.variables)!r}", "features": feats}
@@ -668,6 +775,8 @@ def run_bqm(c):
             clist([f"({cnat(int(r))}, {cnat(int(k))}, {cq(F(b))})" for r, k, b in zip(ir, ic, qd)]),
             cq(F(doc["offset"])))
     coq = f"(KBqm {cnat(n)} {bqm.vartype.name} {new.vartype.name} {obs_bqm(bqm, T)} {vec} {obs_bqm(new, T)})"
+    # multi-step: what came back is then modified; the original must keep its snapshot
+    py_fail = py_fail or mutate_bqm_copy(bqm, new, route)
     return {"coq": coq, "py_fail": py_fail, "features": feats, "nontrivial": n > 0}
 
 
@@ -786,8 +895,27 @@ def build_ss(c):
     kw = {}
     if c["nocc"] is not None:
         kw["num_occurrences"] = c["nocc"]
-    return dimod.SampleSet.from_samples((arr, labels), vt, energy=[float(Fraction(e)) for e in c["energy"]],
+    base = dimod.SampleSet.from_samples((arr, labels), vt, energy=[float(Fraction(e)) for e in c["energy"]],
                                         info=info_from(c["info"]), **kw, **vectors)
+    mode = c.get("rec_order")
+    if not mode:
+        return base
+    # the same rows in a record assembled by the caller, fields in another order ('sample' not first)
+    names = list(base.record.dtype.names)
+    if mode == 'energy_first':
+        order = ['energy'] + [x for x in names if x != 'energy']
+    elif mode == 'sample_last':
+        order = [x for x in names if x != 'sample'] + ['sample']
+    elif mode == 'reversed':
+        order = names[::-1]
+    else:
+        k = int(c.get("rec_perm", 0.5) * len(names)) % len(names)
+        order = names[k:] + names[:k]
+    dt = np.dtype([(x, base.record.dtype.fields[x][0]) for x in order])
+    rec = np.empty(base.record.shape, dtype=dt).view(np.recarray)
+    for x in order:
+        rec[x] = base.record[x]
+    return dimod.SampleSet(rec, base.variables, base.info, base.vartype)
 
 
 class FutId(concurrent.futures.Future):
@@ -825,7 +953,13 @@ def build_deferred(c):
 
 
 def run_ss(c):
-    ref = build_ss(c)
+    try:
+        ref = build_ss(c)
+    except ValueError as e:
+        # e.g. labels ('t', np.int64(1)) and ('t', (1, 2)): the label sort of from_samples compares a NumPy scalar with
+        # a tuple (reported finding np_member_label_sort; kept out of the random stream by npify(only_km=True))
+        return {"py_fail": f"SampleSet.from_samples raised {type(e).__name__}: {e}",
+                "features": {"kind": "ss", "np_member_label_sort": "ambiguous" in str(e)}}
     try:
         ss = build_deferred(c) if c.get("defer") and c.get("defer_main") else ref
         route_obj = build_deferred(c) if c.get("defer") else ss
@@ -932,8 +1066,13 @@ def run_ss(c):
                 if route != 'encoder':
                     extra.append(f"(KSS {vtn} {cbool(intd)} false {cnat(n)} {coq_rows(sample)} (Raw {coq_rows(other.record.sample)}) "
                                  f"{other.vartype.name if other.vartype.name in ('SPIN', 'BINARY', 'INTEGER', 'REAL') else 'INTEGER'} {coq_rows(other.record.sample)})")
+                # multi-step (after everything has been rendered): modify what came back, the original keeps its snapshot
+                if route != 'copy' and py_fail is None:      # copy.copy of a sample set is shallow by design
+                    py_fail = mutate_ss_copy(build_ss(c), route_obj, other, route)
         except Exception as e:
             py_fail = py_fail or f"SampleSet round trip ({route}) raised {type(e).__name__}: {e}"
+    if py_fail is None:
+        py_fail = mutate_ss_copy(build_ss(c), ss, new, "to/from_serializable")
     return {"coq": coq, "extra_coq": extra, "py_fail": py_fail, "features": feats, "nontrivial": len(ss) > 0 and n > 0}
 
 
@@ -1065,10 +1204,16 @@ def run_model(c):
             if isinstance(new, dimod.QuadraticModel):
                 new.offset = new.offset + 1
                 new.set_linear(new.variables[0], 77.0)
+                new.relabel_variables({new.variables[0]: FRESH[0]}, inplace=True)
+                new.add_variable('BINARY', FRESH[1])
             elif isinstance(new, dimod.ConstrainedQuadraticModel):
                 new.objective.offset = new.objective.offset + 1
+                new.relabel_variables({new.variables[0]: FRESH[0]}, inplace=True)
+                new.add_variable('BINARY', FRESH[1])
             elif isinstance(new, dimod.DiscreteQuadraticModel):
                 new.offset = new.offset + 1
+                new.relabel_variables({new.variables[0]: FRESH[0]}, inplace=True)
+                new.add_variable(2, label=FRESH[1])
             if obs_model(m) != before:
                 py_fail = f"{type(m).__name__} ({route}): changing the copy changed the original"
         except Exception as e:
